@@ -178,8 +178,17 @@ SORT_LEAVES = ('{Numpy("int64", d) : d \\in {<<>>, <<1>>, <<2,1>>, <<1,1,0>>}} \
                '{Numpy("float64", d) : d \\in {<<2,-777,1>>, <<-777,3>>, <<1,-777>>}}')
 
 
+# strings: "" a ab b z \xc3\xa9 (e-acute: bytes >= 0x80) \xc3\xa9a, over offset origins 0 and 1
+STR_LEAVES = ('({StrL(o, <<122, 195, 169, 97, 98, 97>>, bs) : bs \\in {0, 1}, o \\in {<<0, 1, 3, 5, 6>>, <<1, 3, 4>>, <<0, 0, 1>>, '
+              '<<3, 5, 6, 6>>, <<0>>}} \\cup {StrL(<<0, 3, 5, 6>>, <<195, 169, 97, 195, 169, 98>>, 0)})')
+
+
 def run_C06(ctx):
     ctx.build("opt")
+    consts = session_consts(OpSet='{"sort"}', LeafSet=STR_LEAVES, Classes='{"ListOffset","List","Regular","IndexedOption","Indexed"}',
+                            Axes="{-2,-1,0,1}", SortArgs="AllSortArgs", MaxDepth="1" if ctx.quick() else "2")
+    ctx.tlc_phase("sort-strings", "Session", consts, invariants=["Refines", "Closed"],
+                  require_actions=["SortOp", "WrapListOffset", "WrapList", "WrapRegular", "WrapIndexedOption"])
     consts = session_consts(OpSet='{"sort"}', LeafSet=SORT_LEAVES,
                             Classes='{"ListOffset","List","Regular","IndexedOption","ByteMasked","Indexed"}',
                             Axes="{-3,-2,-1,0,1,2}", SortArgs="RandomSubset(%d, AllSortArgs)" % (3 if ctx.quick() else 8))
@@ -199,15 +208,27 @@ BUILDER_ALPHABET = '''{[c |-> "null"], [c |-> "int", x |-> 1], [c |-> "int", x |
  [c |-> "index", i |-> 1], [c |-> "index", i |-> 2], [c |-> "endtuple"], [c |-> "clear"]}'''
 
 
+RECORD_ALPHABET = ('{[c |-> "beginrecord", name |-> ""], [c |-> "field", key |-> "x"], [c |-> "field", key |-> "y"], [c |-> "field", key |-> "z"], '
+                   '[c |-> "int", x |-> 1], [c |-> "endrecord"]}')
+RECORD_GRAMMAR = ('IF h = <<>> THEN c.c = "beginrecord" ELSE LET l == h[Len(h)].c IN CASE l = "beginrecord" -> c.c = "field" [] l = "field" -> c.c = "int" '
+                  '[] l = "int" -> c.c \\in {"field", "endrecord"} [] l = "endrecord" -> c.c = "beginrecord" [] OTHER -> TRUE')
+
+
 def run_C14(ctx):
     ctx.build("opt")
     n = 5 if ctx.quick() else 6
-    ctx.tlc_phase("builder-exhaustive", "Builder", dict(Alphabet=BUILDER_ALPHABET, MaxCmds=str(n), EmitOn="TRUE"),
+    ctx.tlc_phase("builder-exhaustive", "Builder", dict(Alphabet=BUILDER_ALPHABET, MaxCmds=str(n), MaxOpen="99", WellNestedOnly="FALSE", EmitOn="TRUE", **{"Allowed(h, c)": "TRUE"}),
                   invariants=["SnapshotLength", "UnifyKeepsValues"], properties=["ErrorsLeaveState"],
                   init="BInit", next_="BNext", view="BView", action_constraints=["BEmit"],
                   translate=("replay", "steps_builder"), judge_fn=("replay", "judge_builder"))
+    # directed: ALL sequences of flat records over three keys in every order / subset (field lookup is stateful: nexttotry_)
+    ctx.tlc_phase("records-key-orders", "Builder",
+                  dict(Alphabet=RECORD_ALPHABET, MaxCmds=str(14 if ctx.quick() else 18), MaxOpen="1", WellNestedOnly="TRUE", EmitOn="TRUE",
+                       **{"Allowed(h, c)": RECORD_GRAMMAR}),
+                  invariants=["SnapshotLength", "UnifyKeepsValues"], init="BInit", next_="BNext", view="BView", action_constraints=["BEmit"],
+                  translate=("replay", "steps_builder"), judge_fn=("replay", "judge_builder"))
     # deeper behaviours, sampled uniformly at random from the same machine
-    ctx.tlc_phase("builder-simulate", "Builder", dict(Alphabet=BUILDER_ALPHABET, MaxCmds="12", EmitOn="TRUE"),
+    ctx.tlc_phase("builder-simulate", "Builder", dict(Alphabet=BUILDER_ALPHABET, MaxCmds="12", MaxOpen="99", WellNestedOnly="FALSE", EmitOn="TRUE", **{"Allowed(h, c)": "TRUE"}),
                   invariants=["SnapshotLength", "UnifyKeepsValues"],
                   init="BInit", next_="BNext", view=None, action_constraints=["BEmit"],
                   simulate="num=%d" % (20000 if ctx.quick() else 300000), depth=13,
@@ -279,6 +300,11 @@ JSON_TOKENS_MARKERS = ('{[t |-> "["], [t |-> "]"], [t |-> ","], [t |-> "int", x 
                        % ", ".join(_s(x) for x in ("nan", "nano", "inf", "info", "-inf", "-infra", "a")))
 
 
+JSON_TOKENS_BIG = ('{[t |-> "["], [t |-> "]"], [t |-> ","], [t |-> "{"], [t |-> "}"], [t |-> ":"], %s, [t |-> "int", x |-> -1], [t |-> "real", n |-> 5, d |-> 2]} \\cup '
+                   '{[t |-> "bigint", s |-> d] : d \\in {"2147483647", "2147483648", "4294967295", "4294967296", "-2147483648", "-2147483649", '
+                   '"9007199254740993", "9223372036854775807", "-9223372036854775808"}}' % _s("a"))
+
+
 def run_C15(ctx):
     ctx.build("opt")
     q = ctx.quick()
@@ -287,6 +313,8 @@ def run_C15(ctx):
     ctx.tlc_phase("all-token-sequences", "JsonIO", dict(TokAlphabet=JSON_TOKENS, MaxToks=str(5 if q else 6), EmitOn="TRUE"),
                   invariants=["NoPartial", "DocsOnlyWhenClosed"], **kw)
     ctx.tlc_phase("marker-strings", "JsonIO", dict(TokAlphabet=JSON_TOKENS_MARKERS, MaxToks=str(5 if q else 6), EmitOn="TRUE"),
+                  invariants=["NoPartial"], **kw)
+    ctx.tlc_phase("integer-widths", "JsonIO", dict(TokAlphabet=JSON_TOKENS_BIG, MaxToks=str(4 if q else 5), EmitOn="TRUE"),
                   invariants=["NoPartial"], **kw)
     kw["view"] = None
     ctx.tlc_phase("long-texts-simulate", "JsonIO", dict(TokAlphabet=JSON_TOKENS, MaxToks="14", EmitOn="TRUE"),
@@ -466,3 +494,68 @@ def run_C02(ctx):
 
 
 RUNNERS["C02"] = run_C02
+
+
+# ------------------------------------------------------------------ C12 (no crash / hang / foreign memory / input mutation)
+ASAN_ENV = {"ASAN_OPTIONS": "detect_leaks=0:abort_on_error=1:allocator_may_return_null=1", "UBSAN_OPTIONS": "print_stacktrace=1"}
+ALL_UNARY_OPS = '{"slice","num","flatten","localindex","pad","comb","reduce","sort","samevalue","tolist"}'
+
+
+def run_C12(ctx):
+    import os as _os
+    env = dict(_os.environ)
+    env.update(ASAN_ENV)
+    ctx.build("asan")
+    q = ctx.quick()
+    rob = dict(translate=("robust", "steps_robust"), judge_fn=("robust", "judge_robust"), variant="asan", worker_env=env)
+    # (1) every operation family on every valid layout of the bound, boundary arguments (zero-length arrays and
+    #     buffers, size-0/size-1 regular lists, n > length, target 0): crash / sanitizer / purity / result-after-drop
+    consts = session_consts(OpSet=ALL_UNARY_OPS, LeafSet=leafset(2), Classes=ALL_CLASSES, Axes="{-2,-1,0,1,2}",
+                            Targets="{0,1,3}", CombNs="{0,1,2,4}",
+                            SliceTuples="RandomSubset(%d, %s)" % (6 if q else 24, slice_tuples(0)),
+                            ReduceArgs="RandomSubset(%d, AllReduceArgs)" % (3 if q else 12),
+                            SortArgs="RandomSubset(%d, AllSortArgs)" % (2 if q else 8))
+    ctx.tlc_phase("boundary-ops-asan", "Session", consts, invariants=["Closed"], seed_tlc=True,
+                  require_actions=["SliceOp", "PadOp", "CombOp", "ReduceOp", "SortOp", "FlattenOp", "NumOp", "SameValueOp",
+                                   "WrapRegular", "WrapBitMasked", "WrapList"],
+                  sample_cases=(60000 if q else 1500000), **rob)
+    consts = session_consts(OpSet='{"concat","aux"}', LeafSet=MIXED_LEAVES, MaxDepth="1", Classes=ALL_CLASSES)
+    ctx.tlc_phase("binary-ops-asan", "Session", consts, invariants=["Closed"], require_actions=["ConcatOp"], timeout=900,
+                  sample_cases=(30000 if q else 600000), **rob)
+    # (2) arbitrary layouts, valid or not, through the check / print / convert entry points
+    consts = session_consts(OpSet='{"validity"}', ValidOnly="FALSE", LeafSet=leafset(2), MaxDepth="2", Classes=ALL_CLASSES)
+    ctx.tlc_phase("any-layout-check-print-convert-asan", "Session", consts, invariants=["Refines"],
+                  require_actions=["Validity", "WrapListOffset", "WrapList", "WrapIndexed", "WrapIndexedOption", "WrapByteMasked",
+                                   "WrapBitMasked", "WrapRegular"],
+                  translate=("robust", "steps_anylayout"), judge_fn=("robust", "judge_anylayout"), variant="asan", worker_env=env,
+                  sample_cases=(60000 if q else 1200000))
+    # (3) histories: every interleaving of derive / drop / re-read over a small register file (Purity.tla)
+    pc = dict(Regs='{"a","b","c"}', Root='"a"', Kinds='{"view","wrap","fresh"}', MaxSteps=str(4 if q else 5), EmitOn="TRUE")
+    ctx.tlc_phase("histories-exhaustive", "Purity", pc, invariants=["NoDangling", "Unchanged", "NoLeak"], properties=["Immutable"],
+                  init="PInit", next_="PNext", view="PView", action_constraints=["PEmit"],
+                  translate=("robust", "steps_history"), judge_fn=("robust", "judge_history"), variant="asan", worker_env=env,
+                  sample_cases=(40000 if q else None))
+    pc["MaxSteps"] = "9"
+    pc["Regs"] = '{"a","b","c","d"}'
+    ctx.tlc_phase("histories-simulate", "Purity", pc, invariants=["NoDangling", "Unchanged", "NoLeak"],
+                  init="PInit", next_="PNext", view=None, action_constraints=["PEmit"],
+                  simulate="num=%d" % (4000 if q else 150000), depth=11,
+                  translate=("robust", "steps_history"), judge_fn=("robust", "judge_history"), variant="asan", worker_env=env)
+    # (4) the stateful components under the sanitizers: builder commands, JSON texts, Forth programs
+    ctx.tlc_phase("builder-asan", "Builder", dict(Alphabet=BUILDER_ALPHABET, MaxCmds=str(4 if q else 5), MaxOpen="99", WellNestedOnly="FALSE", EmitOn="TRUE", **{"Allowed(h, c)": "TRUE"}),
+                  invariants=["SnapshotLength"], init="BInit", next_="BNext", view="BView", action_constraints=["BEmit"],
+                  translate=("replay", "steps_builder"), judge_fn=("robust", "judge_nocrash"), variant="asan", worker_env=env,
+                  sample_cases=(30000 if q else 400000))
+    kw = dict(init="JInit", next_="JNext", view="JView", action_constraints=["JEmit"],
+              translate=("replay", "steps_json"), judge_fn=("robust", "judge_nocrash"), variant="asan", worker_env=env)
+    ctx.tlc_phase("json-asan", "JsonIO", dict(TokAlphabet=JSON_TOKENS, MaxToks=str(4 if q else 5), EmitOn="TRUE"),
+                  invariants=["NoPartial"], sample_cases=(30000 if q else 400000), **kw)
+    return ctx.finish(rule="case = one operation on one layout (or one history / command sequence / text) executed in a worker process built "
+                           "with -fsanitize=address,undefined; non-trivial = reaches the library (every case does); verdict on exit "
+                           "status, sanitizer report, timeout, exception class, operand digests, and results re-read after drops",
+                      assumptions=["memory safety is observed on the executed behaviours only (the spec contributes the exhaustive "
+                                   "boundary enumeration, AddressSanitizer/UBSan are the oracle)",
+                                   "UBSan's signed-overflow/shift checks are disabled for ForthMachine.cpp, where wrap-around is the documented meaning"])
+
+
+RUNNERS["C12"] = run_C12
